@@ -215,6 +215,19 @@ def main():
     fires = sum(l.count(" f") + l.startswith("f") for l in a)
     chk.cov["timer_callbacks_observed"] = fires
 
+    # (c) the same timers through the real loop (uv_run on a virtual clock with sub-millisecond offset): uv_now() never
+    # decreases (uv_update_time included), timers armed in a pass wait for the next one, due timers fire in the
+    # iteration in which they become due.  Harness, model and monitor are those of C01/C03.
+    import loopcore_common as lc
+    import c03
+    try:
+        llib, lh, lm = lc.build(chk)
+        lcases = [lc.gen_case(chk.rng, "timers" if k % 4 else "huge") for k in range(60000 if thorough else 700)]
+        la, lb = lc.run_both(lh, lm, lcases)
+        vf.diff_cases(chk, "timers under uv_run = Model/LoopCore.v", lcases, la, lb, c03.monitor)
+    except vf.BuildError as e:
+        chk.violation("build failed: %s" % str(e)[:300], {"kind": "build", "log": str(e)}, found_input=False)
+
     chk.finish(
         level="proof",
         rule="heap: all op sequences (insert with 3 key values / remove any live node) of the stated length "
